@@ -36,16 +36,24 @@ class UrandomShim:
         return getattr(_real_os, name)
 
 
+_urandom_patch = None
+
+
 def install_urandom(mode="counter"):
+    """Route every os.urandom the library can reach (module `os` or a name imported from it) through a recording shim."""
+    global _urandom_patch
+    from . import seams
+    uninstall_urandom()
     shim = UrandomShim(mode)
-    lib._abnf.os = shim
-    lib._handshake.os = shim
+    _urandom_patch = seams.Patch().apply(seams.urandom_pairs(shim))
     return shim
 
 
 def uninstall_urandom():
-    lib._abnf.os = _real_os
-    lib._handshake.os = _real_os
+    global _urandom_patch
+    if _urandom_patch is not None:
+        _urandom_patch.undo()
+        _urandom_patch = None
 
 
 TIMEOUT_KINDS = ("timeout", "ssl-timeout")
@@ -212,27 +220,8 @@ def exc_name(e):
 
 
 def patch_clock(fake):
-    """Replace the real `time` module / time.time / time.sleep wherever a module of the websocket package references them (generic scan, so that
-    moving an import inside the library does not let the real clock escape). Returns an undo callable."""
-    import sys as _sys
+    """Replace the real `time` module / time.time / time.sleep wherever a module of the websocket package references them. Returns an undo callable."""
     import time as _time
-    saved = []
-    for modname, mod in list(_sys.modules.items()):
-        if mod is None or not (modname == "websocket" or modname.startswith("websocket.")) or modname.startswith("websocket.tests"):
-            continue
-        for name, val in list(vars(mod).items()):
-            new = None
-            if val is _time:
-                new = fake
-            elif val is _time.time:
-                new = fake.time
-            elif val is _time.sleep:
-                new = fake.sleep
-            if new is not None:
-                saved.append((mod, name, val))
-                setattr(mod, name, new)
-
-    def undo():
-        for mod, name, val in saved:
-            setattr(mod, name, val)
-    return undo
+    from . import seams
+    p = seams.Patch().apply([(_time, fake), (_time.time, fake.time), (_time.sleep, fake.sleep)])
+    return p.undo
